@@ -20,7 +20,13 @@ import (
 	"time"
 	"unsafe"
 
+	topov1alpha1 "github.com/k8stopologyawareschedwg/noderesourcetopology-api/pkg/apis/topology/v1alpha1"
 	corev1 "k8s.io/api/core/v1"
+	metav1 "k8s.io/apimachinery/pkg/apis/meta/v1"
+
+	apiext "github.com/koordinator-sh/koordinator/apis/extension"
+	"github.com/koordinator-sh/koordinator/pkg/koordlet/metriccache"
+	"github.com/koordinator-sh/koordinator/pkg/koordlet/statesinformer"
 
 	"github.com/koordinator-sh/koordinator/pkg/koordlet/resourceexecutor"
 	koordletutil "github.com/koordinator-sh/koordinator/pkg/koordlet/util"
@@ -126,6 +132,36 @@ func c12sValid(t *c12sTree, ncpu int) [][]int {
 	}
 	rec(0)
 	return out
+}
+
+// kubelet static CPU manager policy: applyBESuppressCPUSet first widens the BE directory and the pod directories to the
+// whole BE share pool (recoverCPUSetIfNeed) and then writes the suppress result to the CONTAINER directories only.
+type c12sSI struct {
+	statesinformer.StatesInformer
+	topo *topov1alpha1.NodeResourceTopology
+}
+
+func (s *c12sSI) GetNodeTopo() *topov1alpha1.NodeResourceTopology { return s.topo }
+func (s *c12sSI) GetAllPods() []*statesinformer.PodMeta           { return nil }
+
+type c12sMC struct {
+	metriccache.MetricCache
+	info *metriccache.NodeCPUInfo
+}
+
+func (m *c12sMC) Get(key interface{}) (interface{}, bool) {
+	if key == metriccache.NodeCPUInfoKey {
+		return m.info, true
+	}
+	return nil, false
+}
+
+// c12sWant: what a node of the tree must hold when the rewrite is finished.
+func c12sWant(c *c12sCase, t *c12sTree, i, ncpu int) int {
+	if c.Mode == "static" && strings.Count(t.Dirs[i], "/") == 0 { // the BE directory and the pod directories: the whole share pool
+		return 1<<uint(ncpu) - 1
+	}
+	return c.Target
 }
 
 type c12sCase struct {
@@ -369,11 +405,23 @@ func c12sExec(rig *c12sRig, c *c12sCase) *c12sRun {
 	defer close(stop)
 	plugin := &CPUSuppress{executor: obs, cgroupReader: resourceexecutor.NewCgroupReader(), suppressPolicyStatuses: map[string]suppressPolicyStatus{}}
 	plugin.init(stop)
+	const ncpuAll = 4 // the node's CPUs 0..3 (the alphabet of the unit); nothing is reserved or exclusive: the BE share pool is all of them
+	apply := func(target int) error { return plugin.applyCPUSetWithNonePolicy(c12sCPUs(target), c12sCPUs(r.sem[0])) }
+	if c.Mode == "static" {
+		info := &metriccache.NodeCPUInfo{}
+		for i := 0; i < ncpuAll; i++ {
+			info.ProcessorInfos = append(info.ProcessorInfos, koordletutil.ProcessorInfo{CPUID: int32(i), CoreID: int32(i), SocketID: 0, NodeID: 0})
+		}
+		plugin.metricCache = &c12sMC{info: info}
+		plugin.statesInformer = &c12sSI{topo: &topov1alpha1.NodeResourceTopology{ObjectMeta: metav1.ObjectMeta{Name: "node",
+			Annotations: map[string]string{apiext.AnnotationKubeletCPUManagerPolicy: `{"policy":"static"}`}}}}
+		apply = func(target int) error { return plugin.applyBESuppressCPUSet(c12sCPUs(target), c12sCPUs(r.sem[0])) }
+	}
 
 	// what adjustByCPUSet hands over as the old set: the current (effective) CPU set of the BE QoS cgroup, which in
 	// a valid hierarchy is the value of its cpuset.cpus
 	readOld := func() []int32 { return c12sCPUs(r.sem[0]) }
-	if c.Mode != "cold" {
+	if c.Mode != "cold" && c.Mode != "static" {
 		// previous suppress round: the tree was brought to its (uniform) old value through the same path
 		r.phase = "prime"
 		if err := plugin.applyCPUSetWithNonePolicy(c12sCPUs(c.Old[0]), readOld()); err != nil {
@@ -389,7 +437,7 @@ func c12sExec(rig *c12sRig, c *c12sCase) *c12sRun {
 	for i := range r.writes {
 		r.writes[i] = 0
 	}
-	if err := plugin.applyCPUSetWithNonePolicy(c12sCPUs(c.Target), readOld()); err != nil {
+	if err := apply(c.Target); err != nil {
 		r.violate(r.key("apply-failed"), err.Error())
 		return r
 	}
@@ -398,8 +446,11 @@ func c12sExec(rig *c12sRig, c *c12sCase) *c12sRun {
 		if string(b) != r.cur[i] {
 			panic("c12 harness: tracked contents differ from the files (missed write event)")
 		}
-		if r.sem[i] != c.Target {
-			r.violate(r.key("final-not-target")+"|"+c12sDir(c.Old[i], c.Target), fmt.Sprintf("rewrite finished but %q holds {%s}, target {%s}", t.Dirs[i], c12sList(r.sem[i]), c12sList(c.Target)))
+		if want := c12sWant(c, t, i, ncpuAll); r.sem[i] != want {
+			r.violate(r.key("final-not-target")+"|"+c12sDir(c.Old[i], want), fmt.Sprintf("rewrite finished but %q holds {%s}, target {%s}", t.Dirs[i], c12sList(r.sem[i]), c12sList(want)))
+		}
+		if c.Mode == "static" {
+			continue // (whether the recovery rewrites an unchanged directory is not judged for this path)
 		}
 		if c.Old[i] == c.Target && r.writes[i] != 0 {
 			uniform := "uniform-start"
@@ -410,6 +461,9 @@ func c12sExec(rig *c12sRig, c *c12sCase) *c12sRun {
 			}
 			r.violate(r.key("unchanged-file-rewritten")+"|"+uniform, fmt.Sprintf("%q has old == target == {%s} but received %d write(s)", t.Dirs[i], c12sList(c.Target), r.writes[i]))
 		}
+	}
+	if c.Mode == "static" {
+		return r
 	}
 	r.phase = "second"
 	before := r.nW
@@ -474,8 +528,8 @@ func TestVerifC12Suppress(t *testing.T) {
 					uniform = uniform && o == old[0]
 				}
 				for target := 1; target < 1<<ncpu; target++ {
-					for _, mode := range []string{"cold", "warm", "force"} {
-						if mode != "cold" && !uniform {
+					for _, mode := range []string{"cold", "warm", "force", "static"} {
+						if mode != "cold" && mode != "static" && !uniform {
 							continue // a previous round leaves a uniform tree; other starts are only explored cold
 						}
 						ncase++
